@@ -80,16 +80,22 @@ theorem loop_step (flat : List Nat) (r : Rec) (hok : r.OK) (fuel : Nat) (d : Dec
       · simp [h]
       · simp [h]
     simp only [hget, hcond, if_false]
+    -- the value recorded for a varint / fixed field: `data[start:dec.Offset()]`, from the end of the key to the end of the field
+    have hval : ((d.afterTag (encTag r.tag r.wt).length).p.drop (d.afterTag (encTag r.tag r.wt).length).off).take
+        (d.off + (encTag r.tag r.wt).length + r.body.length - (d.afterTag (encTag r.tag r.wt).length).off) = r.body := by
+      rw [hAt1.rest_eq, Dec.afterTag_off]
+      have : d.off + (encTag r.tag r.wt).length + r.body.length - (d.off + (encTag r.tag r.wt).length) = r.body.length := by omega
+      rw [this]; simp
     cases r with
     | varint t v =>
-      simp only [Rec.wt, Rec.tag, Rec.body, Rec.chunk, true_or, if_true] at hskip ⊢
-      simp only [hskip, Rec.tag, Rec.chunk, Rec.body, drop_key t wtVarint htag.2 (by decide)]
+      simp only [Rec.wt, Rec.tag, Rec.body, Rec.chunk, true_or, if_true] at hskip hval ⊢
+      simp only [hskip, Rec.tag, Rec.chunk, Rec.body, hval]
     | fixed32 t v =>
-      simp only [Rec.wt, Rec.tag, Rec.body, Rec.chunk, true_or, or_true, if_true] at hskip ⊢
-      simp only [hskip, Rec.tag, Rec.chunk, Rec.body, drop_key t wtFixed32 htag.2 (by decide)]
+      simp only [Rec.wt, Rec.tag, Rec.body, Rec.chunk, true_or, or_true, if_true] at hskip hval ⊢
+      simp only [hskip, Rec.tag, Rec.chunk, Rec.body, hval]
     | fixed64 t v =>
-      simp only [Rec.wt, Rec.tag, Rec.body, Rec.chunk, true_or, or_true, if_true] at hskip ⊢
-      simp only [hskip, Rec.tag, Rec.chunk, Rec.body, drop_key t wtFixed64 htag.2 (by decide)]
+      simp only [Rec.wt, Rec.tag, Rec.body, Rec.chunk, true_or, or_true, if_true] at hskip hval ⊢
+      simp only [hskip, Rec.tag, Rec.chunk, Rec.body, hval]
     | len t b =>
       have n1 : ¬ (wtLen = wtVarint ∨ wtLen = wtFixed32 ∨ wtLen = wtFixed64) := by decide
       have hAt1' : Dec.At (d.afterTag (encTag t wtLen).length) (pre ++ encTag t wtLen)
